@@ -479,6 +479,63 @@ def mime_table_obligations(ctx, rep, rule):
             "" if called else "initialize() no longer calls init_mimetypes(): the configured tables are never installed", key=f"{rule}|startup")
 
 
+
+_MBOX_YES = [b"From jgoerzen@complete.org Wed Nov 21 13:41:21 2001\n", b"From MAILER-DAEMON Fri Jul  8 12:08:34 2011\n",
+             b"From  a@b.c  Mon Jan  1 00:00 2001\r\n", b"From user@host Thu Jan  1 00:00:00 +0000 1970\n"]
+_MBOX_NO = [b"From Wikipedia, the free encyclopedia\n", b"From x\n", b"From: a@b.c\n", b"From the desk of Bob, Wed Nov 21 2001\n", b"Hello\n", b"",
+            b"from a@b Wed Nov 21 13:41:21 2001\n", b" From a@b Wed Nov 21 13:41:21 2001\n", b"From a@b Wed Nov 21 2001\n",
+            b"X-From a@b Wed Nov 21 13:41:21 2001\n", b"From a@b Wed Nov 21 13:41:21 2001 and more text follows here\n", b"\x7fELF From a\n"]
+
+
+def mailbox_sniff_obligations(ctx, rep, rule):
+    """A file is taken for a mailbox - and served as a menu instead of its bytes - only when its first line is an mbox envelope line
+    (`From <sender> <weekday> <month> <day> <time> [<zone>] <year>`): the handler's test is evaluated on first lines."""
+    from ..paths import Const, PathLimit, Walker, truth
+
+    prog = ctx.prog
+    C = ctx.cls("handlers.mbox.MBoxFolderHandler")
+    can = prog.resolve_method(C, "canhandlerequest") if C else None
+    if can is None:
+        rep.ok(rule, "no mailbox handler that sniffs file contents", "pygopherd/handlers", "", key=f"{rule}|none", nontrivial=False)
+        return
+    problems, n = [], 0
+    for line, want in [(x, True) for x in _MBOX_YES] + [(x, False) for x in _MBOX_NO]:
+        def cv(call, target, st, _l=line):
+            f = call.func
+            if isinstance(f, ast.Attribute) and f.attr in ("readline", "peek"):
+                return Const(_l)
+            if isinstance(f, ast.Attribute) and f.attr == "read":
+                return Const(_l)
+            return None
+
+        w = Walker(prog, ctx.resolver, call_value=cv, exact_loops=True, unroll=4, max_paths=2000,
+                   inline=lambda fn, t, d: d < 2 and (t.bound_cls is not None or fn.module is can.module) and fn.name not in ("getselector",))
+        yes = no = unk = 0
+        try:
+            for p in w.run(can, C):
+                if p.kind != "return":
+                    continue
+                t = truth(p.value) if p.value is not None else False
+                if t is True:
+                    yes += 1
+                elif t is False:
+                    no += 1
+                else:
+                    unk += 1
+        except PathLimit:
+            continue
+        if unk:
+            continue
+        n += 1
+        if want and not yes:
+            problems.append(f"a file that starts with the envelope line {line!r} is not taken for a mailbox")
+        if not want and yes:
+            problems.append(f"a file whose first line is {line!r} is taken for a mailbox: it is answered with a menu instead of its bytes")
+    total = len(_MBOX_YES) + len(_MBOX_NO)
+    rep.add(rule, f"{can.qualname}: which first lines make a file a mailbox [{n} of {total} evaluated]", not problems and n >= total // 2, ctx.where(can),
+            "; ".join(problems[:2]) if problems else ("" if n >= total // 2 else "the walker could not follow the test"), key=f"{rule}|mbox", nontrivial=n > 0)
+
+
 def check(ctx, rep):
     prog = ctx.prog
     eff = Effects(prog, ctx.resolver)
@@ -538,6 +595,9 @@ def check(ctx, rep):
                 key=f"R04k|{f_.qualname}|{norm(c_.func)}")
     if not raw_sites:
         rep.ok("R04k", f"no writer reaches below the response file object [{n_writers} writer functions]", "pygopherd/handlers", "", key="R04k|none")
+    rep.rule("R04l", "a file is served as a mailbox menu only when its first line is an mbox envelope line (sender, weekday, month, day, time, "
+             "year): the mailbox handler's test evaluated on 16 first lines - ordinary text that begins with `From ` stays a document", floor=1)
+    mailbox_sniff_obligations(ctx, rep, "R04l")
     rep.rule("R04a", "copy loop: 'rb' open in a with; each chunk written once unchanged; loop ends only on an empty read", floor=1)
     rep.rule("R04b", "Gopher+ length: transforming handlers leave size unset; generated menus use the unknown-length marker", floor=5)
     rep.rule("R04c", "HTTP HEAD: no body-producing call reachable; header writes independent of the method", floor=1)
